@@ -1719,6 +1719,10 @@ pub struct ConnectionH2<Front: SocketHandler> {
     /// `expect_write` to be written out completely (see
     /// [`Self::schedule_zero_flush`]).
     pub zero_flush_deferred: bool,
+    /// The peer reset this stream while part of one of its frames was already
+    /// on the wire (`expect_write` designates it): the stream is retired once
+    /// `write_streams` has written out what was serialised for it.
+    pub retire_after_flush: Option<StreamId>,
     pub last_stream_id: StreamId,
     pub local_settings: H2Settings,
     pub peer_settings: H2Settings,
@@ -1945,6 +1949,7 @@ impl<Front: SocketHandler> ConnectionH2<Front> {
             expect_read,
             expect_write: None,
             zero_flush_deferred: false,
+            retire_after_flush: None,
             last_stream_id: 0,
             local_settings,
             peer_settings: H2Settings::default(),
@@ -2848,7 +2853,13 @@ impl<Front: SocketHandler> ConnectionH2<Front> {
                 return MuxResult::Continue;
             }
             self.expect_write = None;
-            if (kawa.is_terminated() || kawa.is_error())
+            if self.retire_after_flush == Some(stream_id) {
+                // Reset by the peer in the middle of this write: everything but
+                // the retirement was done in `handle_rst_stream_frame`.
+                self.retire_after_flush = None;
+                stream.state = StreamState::Recycle;
+                self.remove_dead_stream(stream_id, global_stream_id);
+            } else if (kawa.is_terminated() || kawa.is_error())
                 && kawa.is_completed()
                 && !Self::handle_1xx_reset(kawa, stream_state, &mut endpoint)
             {
@@ -5768,7 +5779,12 @@ impl<Front: SocketHandler> ConnectionH2<Front> {
         // Compute totals before removing the stream from the map,
         // so the removed stream's bytes are included in the total.
         let rst_byte_totals = self.compute_stream_byte_totals(context);
-        if let Some(global_stream_id) = self.streams.get(&rst_stream.stream_id).copied() {
+        if let Some(global_stream_id) = self
+            .streams
+            .get(&rst_stream.stream_id)
+            .copied()
+            .filter(|_| self.retire_after_flush != Some(rst_stream.stream_id))
+        {
             let stream = &mut context.streams[global_stream_id];
             self.attribute_bytes_to_stream(&mut stream.metrics);
             let linked_token = stream.linked_token();
@@ -5802,6 +5818,22 @@ impl<Front: SocketHandler> ConnectionH2<Front> {
                         client_rtt,
                         server_rtt,
                     );
+                    if matches!(
+                        self.expect_write,
+                        Some(H2StreamId::Other { gid, .. }) if gid == global_stream_id
+                    ) {
+                        // Socket back-pressure stopped a frame of this stream
+                        // half way: what was serialised must still be written,
+                        // or the next frame header lands inside its payload.
+                        // Drop the rest of the response and retire the stream
+                        // when `write_streams` has drained it.
+                        stream.back.blocks.clear();
+                        stream.back.parsing_phase = kawa::ParsingPhase::Terminated;
+                        stream.state = StreamState::Unlinked;
+                        self.retire_after_flush = Some(rst_stream.stream_id);
+                        self.readiness.arm_writable();
+                        return MuxResult::Continue;
+                    }
                     stream.state = StreamState::Recycle;
                 }
             }
